@@ -69,6 +69,9 @@ impl Property for C14 {
     fn id(&self) -> &'static str {
         "C14"
     }
+    fn ir_shrinkable(&self) -> bool {
+        true
+    }
     fn fuzzable(&self) -> bool {
         true
     }
